@@ -144,6 +144,12 @@ def parse_graphic_sequence(
         items = sequence
     # Attempt to make each value an integer
     for idx, value in enumerate(items):
+        if isinstance(value, str):
+            # Only decimal digits form a parameter (see AnsiSetting.parsable); int() alone would also accept signs,
+            # underscores and non-ASCII digits
+            value = value.strip()
+            if not (value.isascii() and value.isdigit()):
+                continue
         try:
             items[idx] = int(value)
         except ValueError:
